@@ -2,7 +2,7 @@
    the members as instantiated for T = int and for a fresh struct type both normalise to the
    table Model.po_step was written from.  One lemma per member. *)
 From Common Require Import Prelude.
-From C10 Require Export Model FactsDefs FactsProofs FactsNorm.
+From C10 Require Export Model FactsDefs FactsDecls FactsProofs FactsNorm.
 From C10.gen Require Export Facts.
 Local Open Scope N_scope.
 
@@ -12,6 +12,8 @@ Definition po_agree (ms : list pmeth) : Prop :=
 Ltac agree := intros m H; cbn in H; repeat (destruct H as [<-|H]; [split; vm_compute; reflexivity|]); contradiction.
 
 Lemma po_members_lemma : pfacts_ok gen_pfacts = true.
+Proof. vm_compute. reflexivity. Qed.
+Lemma po_declared_lemma : gen_po_declared = po_declared_expected.
 Proof. vm_compute. reflexivity. Qed.
 Lemma po_findParam_lemma : po_agree [MFind].
 Proof. agree. Qed.
